@@ -349,8 +349,7 @@ impl Interpreter {
                 let a = state.stack.pop_bigint()?;
                 let b = state.stack.pop_bigint()?;
 
-                let sum = a + b;
-                state.stack.push(sum.to_signed_bytes_le());
+                state.stack.push_bigint(a + b)?;
             }
             OpCodes::OP_SUB => {
                 let a = state.stack.pop_bigint()?;
